@@ -1,5 +1,5 @@
 (* C06 — property theorems.  Nothing but statements, `exact`, Print Assumptions. *)
-From G04 Require Import Access Creds CredsCheck CredsProofs CredsObligations.
+From G04 Require Import Access Creds CredsCheck CredsProofs CredsOracle CredsObligations.
 
 (* Whatever the client put in Proxy-Authorization (any number of lines; nominated in
    Connection or not): the field of every message the proxy emits is determined by the
@@ -69,6 +69,29 @@ Theorem T06_mitm_lookup_is_https : forall claimed, mitm_lookup_scheme claimed = 
 Proof. exact (fun claimed => f_equal (fun f : bool => if f then b "https" else claimed) (proj2 ob_mitm_https_before_modifiers)). Qed.
 Print Assumptions T06_mitm_lookup_is_https.
 
+(* The run-time oracle is met by the model: for EVERY credential table, upstream selection, scheme,
+   request and (for a client CONNECT) request sent through the tunnel, the messages the model
+   predicts satisfy fcase_prop_ok, the predicate evaluated on what the scripted hops received.
+   The three hypotheses are about the INPUT only: the secrets are distinguishable (the payload of
+   a client Proxy-Authorization line, resp. of the upstream credential, is not a substring of any
+   other value that may travel) and the client sends no Proxy-Authorization inside its own tunnel. *)
+Theorem T06_model_meets_oracle : forall es m u scheme q inner,
+  new_matcher es = Some m ->
+  (forall v w, In v (pa_of (r_hdr q)) -> (6 < length v)%nat ->
+     In w (up_vals (Some m) u ++ site_vals (Some m) scheme q ++ client_au (r_hdr q) ++ others (r_hdr q) ++ vals inner) ->
+     contains w (payload v) = false) ->
+  (forall c w, upstream_cred (Some m) u = Some c ->
+     In w (others (r_hdr q) ++ vals (raw_del proxy_authorization (raw_del authorization inner))) ->
+     contains w (payload (basic_value c)) = false) ->
+  pa_of inner = [] ->
+  fcase_prop_ok {| f_entries := es; f_up := u; f_req := q; f_scheme := scheme; f_mitm := false; f_claimed := scheme;
+                   f_inner_auth := auth_of inner; f_msgs := predicted_msgs (Some m) u scheme q inner |} = true.
+Proof.
+  exact (creds_model_meets_oracle ob_pa_is_hop_by_hop ob_au_not_hop_by_hop ob_site_auth_checks_all_lines ob_dialvia_ops
+           ob_lookup_order ob_http_port ob_https_port).
+Qed.
+Print Assumptions T06_model_meets_oracle.
+
 (* Non-vacuity: a table with all four levels, an upstream proxy without userinfo, a client
    sending both kinds of credentials. *)
 Example T06_example :
@@ -97,3 +120,26 @@ Example T06_example :
       = [(ToProxy, [basic_value (b "up", b "uppw")], []); (ToOrigin, [], [basic_value (b "h", b "hp")])]
   end.
 Proof. exact (conj eq_refl (conj eq_refl (conj eq_refl (conj eq_refl (conj eq_refl eq_refl))))). Qed.
+
+(* Non-vacuity of T06_model_meets_oracle: a concrete client request with two Proxy-Authorization lines
+   nominated by Connection and its own Authorization, through an upstream proxy whose credential comes
+   from the table, to an https target: the predicted messages (the Transport's CONNECT head, the request
+   inside the tunnel) satisfy the oracle. *)
+Example T06_oracle_example :
+  let es := [{| e_host := b "10.0.0.1"; e_port := b "3128"; e_cred := (b "up", b "uppw") |};
+             {| e_host := b "example.test"; e_port := b "443"; e_cred := (b "x", b "xp") |}] in
+  let q := {| r_method := b "GET"; r_host := b "example.test";
+              r_hdr := [(b "Proxy-Authorization", [b "Basic Y2xpOmVudHNlY3JldA=="; b "Basic Y2xpOmVudHNlY3JldA=="]);
+                        (b "Connection", [b "proxy-authorization"]); (b "Accept", [b "*/*"])] |} in
+  match new_matcher es with
+  | None => False
+  | Some m =>
+      fcase_prop_ok {| f_entries := es; f_up := UpStatic (b "http") (b "10.0.0.1:3128") None; f_req := q;
+                       f_scheme := b "https"; f_mitm := false; f_claimed := b "https"; f_inner_auth := [];
+                       f_msgs := predicted_msgs (Some m) (UpStatic (b "http") (b "10.0.0.1:3128") None) (b "https") q [] |} = true
+      /\ map (fun g => (g_to g, g_kind g, pa_of (g_hdr g), auth_of (g_hdr g)))
+             (predicted_msgs (Some m) (UpStatic (b "http") (b "10.0.0.1:3128") None) (b "https") q [])
+         = [(ToProxy, GConnect, [basic_value (b "up", b "uppw")], []);
+            (ToOrigin, GTunnelInner, [], [basic_value (b "x", b "xp")])]
+  end.
+Proof. exact (conj eq_refl eq_refl). Qed.
